@@ -374,6 +374,12 @@ func stringBytes(e *bytes.Buffer, s []byte, escapeHTML bool) {
 	e.WriteByte('"')
 }
 
+// tagAsRead is the language tag as a reader of the written JSON gets it back: stringBytes writes every byte
+// that does not start a well-formed UTF-8 sequence as U+FFFD, which is what the conversion through runes yields.
+func tagAsRead(ref LangRef) string {
+	return string([]rune(string(ref)))
+}
+
 // MarshalJSON encodes the receiver object to a JSON document.
 func (n NaturalLanguageValues) MarshalJSON() ([]byte, error) {
 	l := len(n)
@@ -393,16 +399,17 @@ func (n NaturalLanguageValues) MarshalJSON() ([]byte, error) {
 	empty := true
 	// a JSON object holds one value per member name: of several values with the same language tag
 	// the first one is written, which is the one Get returns
-	keys := make([][]byte, 0, l)
+	keys := make([]string, 0, l)
 	for _, val := range n {
 		if len(val.Ref) == 0 || len(val.Value) == 0 {
 			continue
 		}
-		key := bytes.Buffer{}
-		stringBytes(&key, []byte(val.Ref), false)
+		// tags are compared as a reader gets them back: a malformed byte and the character U+FFFD are
+		// written differently (\ufffd, the character itself) but are the same member name
+		key := tagAsRead(val.Ref)
 		seen := false
 		for _, k := range keys {
-			if bytes.Equal(k, key.Bytes()) {
+			if k == key {
 				seen = true
 				break
 			}
@@ -410,7 +417,7 @@ func (n NaturalLanguageValues) MarshalJSON() ([]byte, error) {
 		if seen {
 			continue
 		}
-		keys = append(keys, key.Bytes())
+		keys = append(keys, key)
 		if !empty {
 			b.Write([]byte{','})
 		}
